@@ -31,6 +31,11 @@ def scenario(seed, c, size=20000):
         sp["bidi_remote"] = 1500        # writes park on the flow-control window
         sp["uni"] = 1200
         cp["bidi_local"] = 1500
+    extra = {}
+    if c["parked"] == "dgram":
+        sp["max_datagram"] = 1200
+        cp["max_datagram"] = 1200
+        extra["dgram_reader"] = True
     close = {}
     if c["who"] in ("cli", "both"):
         close["cli"] = c["at"]
@@ -46,6 +51,7 @@ def scenario(seed, c, size=20000):
           "faults": faults, "qlog": "capture", "qkeep": "life", "lat_ms": 5, "max_segments": 4,
           "cparams": cp, "sparams": sp, "close": close, "lingers": lingers, "idle_us": idle * 1000,
           "deadline_ms": 4 * max(idle, 1000) + 5000, "case": c}
+    sc.update(extra)
     return sc
 
 
@@ -76,7 +82,7 @@ def run(tier, rep):
     sim.validate(rep, "C17", "ConnLife", "Trace_ConnLife", TRACE_CFG, trace, "tlc-close-points", is_hit)
     rep.cov["rule"] = ("scenarios enumerated by TLC (Gen_ConnLife): who closes (client / server / both racing 3 ms apart / nobody), close point "
                        "(0..120 ms: before, during, after the handshake, during the transfer), parked operations (open on the stream limit, write on "
-                       "the window, reads, accepts), CONNECTION_CLOSE lost or not, idle configurations (equal, unequal, one-sided); thorough adds seeded "
+                       "the window, reads, accepts, handshaked(), a datagram reader), CONNECTION_CLOSE lost or not, idle configurations (equal, unequal, one-sided); thorough adds seeded "
                        "random close times, sizes and loss. Each run is the real client+server stack under virtual time; the connection-state log, close "
                        "calls, completion time of every application task, packets emitted after closing and idle expiry are judged by TLC against "
                        "ConnLife.tla. distinct_nontrivial = distinct runs with an application close or an idle period.")
